@@ -380,7 +380,7 @@ class C04(World):
                 ntol = self._ntol
                 if same(np.asarray(o.face_normals), np.asarray(fresh.face_normals), ntol, "face_normals"):
                     fail("face_normals", "differ from the normals of a fresh mesh")
-                if same(np.asarray(o.vertex_normals), np.asarray(fresh.vertex_normals), ntol, "vertex_normals"):
+                if same(np.asarray(o.vertex_normals), np.asarray(fresh.vertex_normals), max(ntol, 1e-6), "vertex_normals"):
                     fail("vertex_normals", "differ from the normals of a fresh mesh")
         elif kind == "points":
             if same(a["colors"], b["colors"], 0, "colors") or a["meta"] != b["meta"]:
